@@ -3,6 +3,8 @@
 // over one fake chain; the real Bitcoin ProcessDeposits repeated 64 times per block on
 // transactions paying several bridge addresses; the real CalculateNonce.
 // the real EVM Executor.Execute under several goroutine schedules (sess.go): signing-session ids.
+// retry.go: the real retry event handlers on ranges of several retry events, repeated (grouping order);
+// conc.go: one long-lived deposit event handler serving the listener's scan and retries at the same time.
 package main
 
 import (
@@ -36,7 +38,7 @@ type Relayer struct {
 }
 
 type Case struct {
-	Type string `json:"type"` // pair | credit | nonce
+	Type string `json:"type"` // pair | credit | nonce | sess | bexec | sessf | subf | bexecf | retry | conc
 	// pair
 	Kind string          `json:"kind,omitempty"`
 	Ival int64           `json:"ival,omitempty"`
@@ -64,6 +66,14 @@ type Case struct {
 	// nonce
 	Block  int64  `json:"block,omitempty"`
 	TxHash string `json:"txhash,omitempty"`
+	// retry (retry.go): kind, the range [S, E], per retry event of the range the deposits it names; RSame[i]
+	// = j+1: event i names the transaction / block of event j once more
+	S     int64    `json:"s,omitempty"`
+	E     int64    `json:"e,omitempty"`
+	REvs  [][]RDep `json:"revs,omitempty"`
+	RSame []int    `json:"rsame,omitempty"`
+	// conc (conc.go): kind, deps, the calls one long-lived handler object serves
+	Calls []Call `json:"calls,omitempty"`
 }
 
 type Group struct {
@@ -96,6 +106,11 @@ type Obs struct {
 	Nonce    uint64 `json:"nonce,omitempty"`
 	Preimage string `json:"preimage,omitempty"`
 	Digest   string `json:"digest,omitempty"`
+	// retry: per repetition the groups sent; conc: per call what it sent when the calls were made one after
+	// the other, and per further run (sequential repetitions, then the concurrent schedules)
+	RRuns [][]Group   `json:"rruns,omitempty"`
+	Seq   [][]Group   `json:"seq,omitempty"`
+	CRuns [][][]Group `json:"cruns,omitempty"`
 }
 
 var wiring map[string]scanstack.Wiring
@@ -276,6 +291,10 @@ func run(c Case) Obs {
 		return runSubF(c)
 	case "bexecf":
 		return runBexecF(c)
+	case "retry":
+		return runRetry(c)
+	case "conc":
+		return runConc(c)
 	}
 	return Obs{A: runRelayer(c, c.A), B: runRelayer(c, c.B)}
 }
@@ -427,9 +446,11 @@ func gen(r *vgen.Rng, tier string) []Case {
 	var out []Case
 	npairs, ncredit, nnonce, nsess, nbexec := 90, 120, 40, 36, 60
 	nsessf, nsubf, nbexecf := 24, 10, 16
+	nretry, nconc := 24, 12
 	if tier == "thorough" {
 		npairs, ncredit, nnonce, nsess, nbexec = 1500, 1200, 400, 400, 1000
 		nsessf, nsubf, nbexecf = 300, 100, 200
+		nretry, nconc = 300, 90
 	}
 	for i := 0; i < npairs; i++ {
 		kind := kinds[i%3]
@@ -601,6 +622,14 @@ func gen(r *vgen.Rng, tier string) []Case {
 		c.Masks = faultMasks(n)
 		out = append(out, c)
 	}
+	// retry event handlers: several retry events per range, 48 repetitions each
+	for i := 0; i < nretry; i++ {
+		out = append(out, genRetry(r, []string{"evm", "substrate", "evm"}[i%3], i))
+	}
+	// one long-lived deposit event handler serving scans and retries at the same time
+	for i := 0; i < nconc; i++ {
+		out = append(out, genConc(r, []string{"btc", "evm", "btc", "substrate"}[i%4], i))
+	}
 	for i := 0; i < nnonce; i++ {
 		c := Case{Type: "nonce", Block: int64(r.U64() % (1 << 40)), TxHash: hex.EncodeToString(r.Bytes(32))}
 		if i < 4 {
@@ -703,6 +732,10 @@ func coq(c Case, o Obs) string {
 			})
 	case "sessf", "subf", "bexecf":
 		return coqFaulty(c, o)
+	case "retry":
+		return coqRetry(c, o)
+	case "conc":
+		return coqConc(c, o)
 	case "sess":
 		mem := func(m []uint64) string { return vgen.ListOf(m, vgen.N) }
 		return "Sess " + vgen.Str(c.Mid) + " " + vgen.ListOf(o.Batches, mem) + "\n    " +
@@ -798,6 +831,10 @@ func coqFaulty(c Case, o Obs) string {
 }
 
 func main() {
+	if os.Getenv("C19_CHILD") == "conc" {
+		concChild()
+		return
+	}
 	zerolog.SetGlobalLevel(zerolog.Disabled)
 	wiring, wiringBad = scanstack.LoadWiringLenient()
 	for k, err := range wiringBad {
@@ -817,8 +854,8 @@ func main() {
 		Coq:       coq,
 		ShardSize: 25,
 		Kind: func(c Case) string {
-			if c.Type == "pair" {
-				return "pair-" + c.Kind
+			if c.Type == "pair" || c.Type == "retry" || c.Type == "conc" {
+				return c.Type + "-" + c.Kind
 			}
 			return c.Type
 		},
@@ -847,6 +884,24 @@ func main() {
 				return len(o.FRuns) > 1 && len(o.FRuns[0]) >= 1
 			case "bexecf":
 				return len(o.FBRuns) > 1 && len(o.FBRuns[0]) >= 2
+			case "retry":
+				// two live deposits of different retry events for one destination
+				first := map[uint8]int{}
+				for i := range c.REvs {
+					for _, d := range c.REvs[retryOwner(c, i)] {
+						if d.Exec {
+							continue
+						}
+						if j, ok := first[d.Dest]; ok && j != i {
+							return len(o.RRuns) >= 32
+						} else if !ok {
+							first[d.Dest] = i
+						}
+					}
+				}
+				return false
+			case "conc":
+				return len(c.Calls) >= 3 && len(o.CRuns) >= 8 && len(o.Seq) == len(c.Calls)
 			case "bexec":
 				used := map[int]bool{}
 				for _, ri := range c.BProps {
@@ -856,6 +911,6 @@ func main() {
 			}
 			return true
 		},
-		Rule: "pairs of independently configured real listener stacks (EVM/Substrate/BTC; intervals 1..7; starts 0..60 and large, plus starts 1, i-1, 2i-1 for every interval i against a relayer started at 0; stored cursor absent/behind/ahead; latest/fresh flags; faults; 0..2 crashes each) over one fake chain with 0..2 deposits per block to 3 destinations; Bitcoin ProcessDeposits x64 on blocks of 1..4 transactions paying 0..3 of 2..4 resources whose 32-byte ids differ in the first byte / are left-padded small numbers / share a 31-byte prefix / differ in one inner byte / share a prefix of 1..31 bytes / are random; CalculateNonce on random (height, tx hash); the real EVM Executor.Execute (real tss.Coordinator, fake host and communication) on deliveries of 0..7 proposals forming 0..4 batches, 3 gated schedules (default and GOMAXPROCS(1)) + 2 run-ahead repetitions each; the real Bitcoin Executor.Execute on deliveries of 1..8 proposals over 1..4 resources, 4 schedules (GOMAXPROCS(1) run-ahead and default) each; faulty-relayer cases: one delivery (EVM 3..7 proposals in 1..4 batches, Substrate 1..5, Bitcoin 2..6 over 2..3 resources; some already executed) executed by the real Executor.Execute of a fault-free relayer and of one relayer per proposal position whose executed-status look-up fails there, plus one with two failing look-ups; distinct = distinct input JSON; non-trivial = both relayers emitted message groups / a transaction paying at least two resources / any nonce case / a delivery of at least two signed batches / a Bitcoin delivery concerning at least two resources / a faulty-relayer case whose fault-free relayer starts at least two sessions (Substrate: one)",
+		Rule: "pairs of independently configured real listener stacks (EVM/Substrate/BTC; intervals 1..7; starts 0..60 and large, plus starts 1, i-1, 2i-1 for every interval i against a relayer started at 0; stored cursor absent/behind/ahead; latest/fresh flags; faults; 0..2 crashes each) over one fake chain with 0..2 deposits per block to 3 destinations; Bitcoin ProcessDeposits x64 on blocks of 1..4 transactions paying 0..3 of 2..4 resources whose 32-byte ids differ in the first byte / are left-padded small numbers / share a 31-byte prefix / differ in one inner byte / share a prefix of 1..31 bytes / are random; CalculateNonce on random (height, tx hash); the real EVM Executor.Execute (real tss.Coordinator, fake host and communication) on deliveries of 0..7 proposals forming 0..4 batches, 3 gated schedules (default and GOMAXPROCS(1)) + 2 run-ahead repetitions each; the real Bitcoin Executor.Execute on deliveries of 1..8 proposals over 1..4 resources, 4 schedules (GOMAXPROCS(1) run-ahead and default) each; faulty-relayer cases: one delivery (EVM 3..7 proposals in 1..4 batches, Substrate 1..5, Bitcoin 2..6 over 2..3 resources; some already executed) executed by the real Executor.Execute of a fault-free relayer and of one relayer per proposal position whose executed-status look-up fails there, plus one with two failing look-ups; retry cases: the real EVM RetryV1EventHandler (real events.Listener, receipts of the retried transactions) and the real Substrate RetryEventHandler on one range of 2..6 retry events naming different transactions / blocks (one in eight cases one of them twice) with 1..3 deposits each to 1..3 destinations, at least two events with a live deposit for the same destination, some deposits already executed (EVM), 48 repetitions on one long-lived handler object; conc cases: ONE real deposit event handler per chain kind and the real RetryMessageHandler of that chain's executor package built over it serve 4..7 calls - ProcessDeposits on different cells / blocks and retry messages for (block, destination) - over a chain of 4..6 cells with 1..3 deposits per block (Bitcoin: 14..24 transactions per block), first one after the other (3 times), then all at once in goroutines released together under GOMAXPROCS(1) and the default with fakes that yield at every node read and every HandleDeposit (2 rounds each) and free-running with every call repeated 10 times, in a child process; distinct = distinct input JSON; non-trivial = both relayers emitted message groups / a transaction paying at least two resources / any nonce case / a delivery of at least two signed batches / a Bitcoin delivery concerning at least two resources / a faulty-relayer case whose fault-free relayer starts at least two sessions (Substrate: one) / a retry case with live deposits of two different retry events for one destination and at least 32 repetitions / a concurrent case of at least 3 calls and 8 runs",
 	})
 }
